@@ -564,6 +564,83 @@ func serverConcurrent(name string, bound int) *vx.Scenario {
 	return sc
 }
 
+// sharedConnectionBinary: two namespaces on ONE connection, the server sends binary events in both at the same
+// time (socket emits and a namespace broadcast). On the shared wire every packet must keep its own
+// attachments: a frame of one namespace never lands inside a packet of the other.
+func sharedConnectionBinary(name string, bound int) *vx.Scenario {
+	sc := &vx.Scenario{Name: name, Bound: bound, Horizon: 20 * time.Second}
+	sc.Body = func(e *vsched.Exec) func() vx.Result {
+		vsched.SetExploring(false)
+		srv := sio.NewServer(nil)
+		var v vsched.Var
+		socks := map[string]sio.ServerSocket{}
+		for _, ns := range []string{"/a", "/ab"} {
+			ns := ns
+			srv.Of(ns).OnConnection(func(s sio.ServerSocket) { v.Do(func() { socks[ns] = s }) })
+		}
+		f := vrig.NewFakeEIO(srv, "shared")
+		f.SlowSend = true
+		f.ConnectNS("/a")
+		f.ConnectNS("/ab")
+		vsched.Await(func() bool { return len(socks) == 2 })
+		vrig.Settle(100 * time.Millisecond)
+		before := len(f.Frames)
+		vsched.SetExploring(true)
+		vsched.GoQuiet("emit-a", func() { socks["/a"].Emit("e", sio.Binary("A1"), sio.Binary("A2")) })
+		vsched.GoQuiet("emit-ab", func() { socks["/ab"].Emit("e", sio.Binary("B1")) })
+		vsched.GoQuiet("broadcast-ab", func() { srv.Of("/ab").Emit("b", "text-only") })
+		return func() vx.Result {
+			var r vx.Result
+			frames := f.Frames[before:]
+			var show []string
+			for _, fr := range frames {
+				if fr.Binary {
+					show = append(show, "<"+fr.Data+">")
+				} else {
+					show = append(show, fr.Data)
+				}
+			}
+			r.Outcome = strings.Join(show, " ")
+			packets := 0
+			for i := 0; i < len(frames); i++ {
+				fr := frames[i]
+				if fr.Binary {
+					r.Violate("shared connection: attachment torn from its packet", "frame %d is a binary frame where a header was expected; wire: %v", i, show)
+					return r
+				}
+				packets++
+				if !strings.HasPrefix(fr.Data, "5") {
+					continue
+				}
+				n, tag := 0, byte('A')
+				fmt.Sscanf(fr.Data[1:], "%d-", &n)
+				if strings.Contains(fr.Data, "-/ab,") {
+					tag = 'B'
+				}
+				for k := 1; k <= n; k++ {
+					if i+k >= len(frames) || !frames[i+k].Binary || frames[i+k].Data[0] != tag {
+						r.Violate("shared connection: a frame of another namespace inside a binary packet", "packet %q is followed by %v; wire: %v", fr.Data, show[i+1:minI(i+1+n, len(show))], show)
+						return r
+					}
+				}
+				i += n
+			}
+			if packets != 3 {
+				r.Violate("shared connection: packet lost or duplicated", "%d packets on the wire, 3 emitted; wire: %v", packets, show)
+			}
+			return r
+		}
+	}
+	return sc
+}
+
+func minI(a, b int) int {
+	if a < b {
+		return a
+	}
+	return b
+}
+
 // ---------------------------------------------------------------- 3. Go client against a raw Engine.IO endpoint (rig R2)
 
 var perms = [][]int{{0, 1, 2}, {0, 2, 1}, {1, 0, 2}, {1, 2, 0}, {2, 0, 1}, {2, 1, 0}}
@@ -818,7 +895,7 @@ func scenarios(tier string) []*vx.Scenario {
 	if tier == "thorough" {
 		b = 2
 	}
-	s := []*vx.Scenario{serverConcurrent("server-concurrent/two-connections-lookalike-namespaces", b+1)}
+	s := []*vx.Scenario{serverConcurrent("server-concurrent/two-connections-lookalike-namespaces", b+1), sharedConnectionBinary("server-concurrent/one-connection-two-namespaces-binary", b+2)}
 	for i, p := range perms {
 		earlies := []uint{0, 7}
 		if tier == "thorough" {
@@ -842,7 +919,7 @@ func main() {
 		Property: "C05",
 		Level:    "model_checking",
 		Rule: "server: explicit-state BFS (canonical state = joined namespaces per connection + how each socket that left did so, so that a rejoin after every way of leaving is explored) over histories of CONNECT / CONNECT-whose-connection-handler-kicks / EVENT / EVENT+ack / DISCONNECT / server-side kick / nsp.Emit / socket.Emit / cross-namespace ack race on 2 connections x {'/', '/a', '/ab', '/a/b', a non-existent one}, every history replayed on the real server and compared with a routing model after every step; " +
-			"concurrent connections in look-alike namespaces explored to the bound; Go client: all 6 orders of CONNECT replies x early/late event placements against a raw Engine.IO endpoint; second namespace on an open connection; a socket leaving its namespace around its connection handler (kicked by the handler, kicked by a racing DisconnectSockets, client DISCONNECT during a slow handler) followed by a rejoin, explored to the bound. distinct_nontrivial = histories of length >= 2 + deviating schedules",
+			"concurrent connections in look-alike namespaces, and concurrent binary emits in two namespaces sharing one connection (frames of one packet stay together on the shared wire), explored to the bound; Go client: all 6 orders of CONNECT replies x early/late event placements against a raw Engine.IO endpoint; second namespace on an open connection; a socket leaving its namespace around its connection handler (kicked by the handler, kicked by a racing DisconnectSockets, client DISCONNECT during a slow handler) followed by a rejoin, explored to the bound. distinct_nontrivial = histories of length >= 2 + deviating schedules",
 		Scenarios: scenarios,
 		Budget: func(tier string) time.Duration {
 			if tier == "thorough" {
